@@ -101,6 +101,18 @@ func vStopXfer(rc *runCtx) (*vXferConfig, *xferOpts, vSnap, *treeSpec) {
 			if st, err := os.Stat(p); err == nil && !st.IsDir() {
 				b, _ := os.ReadFile(p)
 				vTryWrite(filepath.Join(dst, filepath.Base(p)), append([]byte("old:"), b[:len(b)/3]...))
+			} else if err == nil {
+				// a directory of the same name already there, with a file of its own and (sometimes)
+				// older versions of files the transfer is about to replace
+				d := filepath.Join(dst, filepath.Base(p))
+				os.MkdirAll(filepath.Join(d, "kept.d"), 0755)
+				vTryWrite(filepath.Join(d, "keep.txt"), []byte("was here before"))
+				ents, _ := os.ReadDir(p)
+				for _, e := range ents {
+					if !e.IsDir() && tp.Bool("s.oldchild", 500) {
+						vTryWrite(filepath.Join(d, e.Name()), []byte("older version"))
+					}
+				}
 			}
 		}
 	}
@@ -216,8 +228,14 @@ func vScenarioC10(rc *runCtx) {
 		}
 	}
 	transferred := map[string]bool{}
+	srcRel := map[string]bool{} // relative paths (under the destination) that the sources map to
 	for _, p := range o.srcPaths {
-		transferred[filepath.Base(p)] = true
+		base := filepath.Base(p)
+		transferred[base] = true
+		srcRel[base] = true
+		for k := range vSnapshot(p) {
+			srcRel[filepath.Join(base, k)] = true
+		}
 	}
 	deleted := strings.Contains(said, "Stopped and deleted")
 	if deleted {
@@ -229,19 +247,19 @@ func vScenarioC10(rc *runCtx) {
 				rc.violate("delete", "C10:left-behind", "stop and delete (%s): %q was created by the transfer and is still there (reports: %q)", how, k, vClip(said, 200))
 				return
 			}
-			if !b.untouched(after[k]) && !(cfg.overwrite && transferred[top]) {
+			_ = top
+			if !b.untouched(after[k]) && !(cfg.overwrite && srcRel[k]) && !b.Dir {
 				rc.violate("delete", "C10:modified", "stop and delete (%s): pre-existing %q was modified", how, k)
 				return
 			}
-			if cfg.overwrite && transferred[top] && !b.untouched(after[k]) && !after[k].Dir {
+			if cfg.overwrite && srcRel[k] && !b.untouched(after[k]) && !after[k].Dir {
 				rc.violate("delete", "C10:half-replaced", "stop and delete (%s): %q had begun to be replaced and was neither removed nor left as it was", how, k)
 				return
 			}
 		}
 		for _, k := range before.keys() {
-			top := strings.Split(k, string(os.PathSeparator))[0]
-			if _, ok := after[k]; !ok && !(cfg.overwrite && transferred[top]) {
-				rc.violate("delete", "C10:removed-foreign", "stop and delete (%s): pre-existing %q, which the transfer did not create or replace, was removed", how, k)
+			if _, ok := after[k]; !ok && !(cfg.overwrite && srcRel[k] && !before[k].Dir) {
+				rc.violate("delete", "C10:removed-foreign", "stop and delete (%s): pre-existing %q, which the transfer neither created nor had begun to replace, was removed", how, k)
 				return
 			}
 		}
